@@ -405,7 +405,16 @@ func (w *world) apply(op Op) (r resolved, v *simcore.Violation) {
 			// the re-announced block was canonical before the operation and still is
 			v.Key = "added-log-twice:already-canonical-block-made-head-again"
 		}
-		return r, v
+		if isKnown(v.Key) && (v.Oracle == "logs-never-announced" || v.Oracle == "added-log-twice") {
+			// a recorded finding about the event stream only: note it, re-base the log model
+			// on the canonical chain and finish the remaining checks of this operation
+			w.res.KnownHit(v.Key)
+			if v = guard("invariants", func() *simcore.Violation { return w.invariants(nil, w.bc.CurrentBlock().Hash(), true) }); v != nil {
+				return r, v
+			}
+		} else {
+			return r, v
+		}
 	}
 	r.endSeq = w.clock.Now()
 	r.headAfter = w.headNode
